@@ -159,6 +159,7 @@ class Iter:
         it = Iter(s.kind)
         for k, v in s.__dict__.items():
             it.__dict__[k] = v.clone() if isinstance(v, Iter) else v
+        it.__dict__['agg'] = None     # a clone is detached from the range value it was borrowed from
         return it
 
 
@@ -169,8 +170,8 @@ def cp(v):
         return a
     if isinstance(v, Enum):
         return Enum(v.ty, v.variant, [cp(x) for x in v.fields])
-    if isinstance(v, Iter):
-        return v.clone()
+    # (an iterator value is never `Copy`: a `move` hands over the very same state - cloning it here would detach adaptors built on
+    # `by_ref()` / `&mut it` from the iterator they borrow)
     return v
 
 
